@@ -76,6 +76,17 @@ def gen_cases(ctx, n):
                 r.choice(["xqf", "xf", "eq", "xqfi", "t", "v"]) if kind in ("dir-kinds", "odd-members") else r.choice(CLI_MODES)
             out.append(Case("cli %s %s %s" % (mode, r.choice(["file", "stdin"]), d.hex() or "-"), judge=judge,
                             tags={"cli", "mode=" + mode, kind}))
+    # fixed: a DANGEROUS symbolic link whose placeholder cannot be created (the file-system step of its extraction fails), then the walk
+    # goes on to the end of the archive, where the reader presents its deferred links – for every policy and stream kind, with the
+    # link at top level and inside a directory (not left to the random histories)
+    for kind_ in A.KINDS:
+        for pol in A.POLICIES:
+            for path in (b"", b"d/"):
+                d = (A._member(r, b"", b"d|", method=b"-lhd-", perms=0o40755, level=2) if False else b"")
+                d = A._member(r, path, b"lnk|../outside", method=b"-lhd-", perms=0o120777, level=r.choice([0, 1, 2])) + \
+                    A._member(r, b"", b"after.txt", data=b"after", level=r.choice([0, 1, 2])) + b"\0"
+                for toks in (["n", "x0", "n", "x1", "n", "n"], ["n", "x0", "n", "n", "x1", "n"], ["n", "x0"]):
+                    out.append(Case(A.rdr_op(kind_, pol, toks, d), judge=judge, tags={"lib", "placeholder-fails"}))
     # header-level perturbations (every single-byte substitution at the length/level bytes, every truncation,
     # extended-header size perturbations) of a few generated headers: the parser alone, and through the reader
     import props.C12 as C12
